@@ -112,31 +112,35 @@ func (r ResolveResult) Targets(network string) iter.Seq[Target] {
 			if h.Port > 0 {
 				port = h.Port
 			}
-			alpn := h.ALPN
+			// What a target is handed ends where its data ends: the targets of
+			// one record share these lists, and an append to one of them must
+			// not land in memory that another one's append also uses.
+			alpn := slices.Clip(h.ALPN)
 			if !h.NoDefaultALPN {
-				alpn = append(slices.Clip(alpn), "http/1.1")
+				alpn = slices.Clip(append(alpn, "http/1.1"))
 			}
+			ech := slices.Clip(h.ECH)
 			if h.Target != "" {
 				for _, a := range r.Additional[h.Target] {
-					if !add(a, port, h.ECH, alpn) {
+					if !add(a, port, ech, alpn) {
 						return
 					}
 				}
 				continue
 			}
 			for _, a := range r.Address {
-				if !add(a, port, h.ECH, alpn) {
+				if !add(a, port, ech, alpn) {
 					return
 				}
 			}
 			if len(r.Address) == 0 {
 				for _, a := range h.IPv4Hint {
-					if !add(a, port, h.ECH, alpn) {
+					if !add(a, port, ech, alpn) {
 						return
 					}
 				}
 				for _, a := range h.IPv6Hint {
-					if !add(a, port, h.ECH, alpn) {
+					if !add(a, port, ech, alpn) {
 						return
 					}
 				}
